@@ -39,7 +39,7 @@ Lemma yaml_loop_char_offset : forall fuel s i n total, (List.length s <= fuel)%n
 Proof.
   induction fuel as [|f IH]; intros s i n total Hf Ht.
   - destruct s; [|cbn in Hf; lia]. cbn. unfold zlen in Ht. cbn in Ht. lia.
-  - destruct s as [|b r]; [cbn; unfold zlen in Ht; cbn in Ht; lia|].
+  - destruct s as [|b r]; [destruct n; cbn; unfold zlen in Ht; cbn in Ht; lia|].
     cbn [yaml_offset_loop char_offset_aux]. destruct n as [|n].
     + cbn. lia.
     + replace (Z.of_nat (S n) =? 0) with false by (symmetry; apply Z.eqb_neq; lia).
